@@ -443,8 +443,8 @@ Section RunOk.
     (forall q, In q (files_of argv) -> starts_dash (render_pspec q) = false) ->
     let o := obs_of_args (c_cwd cfg) (map (parse_arg (c_cwd cfg)) (map render_arg argv)) in
     o_files o = spec_files cfg /\ o_incs o = spec_includes cfg
-    /\ o_go o = spec_mappings pkg_of cfg PGo /\ o_vt o = spec_mappings pkg_of cfg PVt
-    /\ o_grpc o = spec_mappings pkg_of cfg PGrpc /\ o_req o = (true, c_vt cfg, c_grpc cfg).
+    /\ o_go o = scan_mappings pkg_of cfg PGo /\ o_vt o = scan_mappings pkg_of cfg PVt
+    /\ o_grpc o = scan_mappings pkg_of cfg PGrpc /\ o_req o = (true, c_vt cfg, c_grpc cfg).
   Proof.
     intros cfg argv Hwf Hdirs Hnames Hcwd Hsegs Hrun Hdash o. unfold o.
     rewrite (parse_render_obs (c_cwd cfg) argv)
